@@ -356,6 +356,8 @@ def eval_exact(t, env, stats=None):
                     raise Irrational()  # too large to be worth computing exactly
                 v = a ** int(b)
             else:
+                if ILL[0] and a < 0 and abs(b - round(b)) <= F(1, 10 ** 9) * max(1, abs(b)):
+                    raise Irrational()   # a float rounding error decides whether the exponent of a negative base is an integer
                 if a < 0:
                     raise Undefined()
                 if a == 0:
